@@ -1,1 +1,65 @@
-/-! Property theorems for C10 (only property-level statements and non-vacuity examples live here). -/
+import SpoxModel.Lemmas.Tensor
+/-!
+# C10 — constants and attributes are embedded exactly and captured at the call
+
+Property theorems only.  Part 1: the encoding (`from_array` → typed-field TensorProto → `to_array`).
+-/
+namespace C10
+open Tensor Generated.TensorEnum
+
+/-! ## Obligations on the tables generated from the code on this run -/
+
+/-- spox's element-type → ONNX enum table is exact: the enum it writes denotes the same element
+    type in the ONNX specification (in particular it is injective: no two element types share an
+    enum, e.g. `bool` is not written as `uint8`). -/
+theorem enum_exact (d : DType) : onnxDType (enumOf d) = some d := by
+  cases d <;> rfl
+
+/-- Typed-field layout (ONNX IR: "for int32, uint8, int8, uint16, int16, bool, float16, bfloat16:
+    int32_data; uint32, uint64: uint64_data; …"). -/
+theorem field_layout (d : DType) :
+    fieldOf d = match d with
+      | .bool | .int8 | .int16 | .int32 | .uint8 | .uint16 | .float16 | .bfloat16 => Field.int32Data
+      | .int64 => .int64Data
+      | .uint32 | .uint64 => .uint64Data
+      | .float32 | .complex64 => .floatData
+      | .float64 | .complex128 => .doubleData
+      | .str => .stringData := by
+  cases d <;> rfl
+
+private theorem map_eq_self {f : Nat → Nat} {l : List Nat} (h : ∀ w ∈ l, f w = w) : l.map f = l := by
+  induction l with
+  | nil => rfl
+  | cons x xs ih =>
+    simp only [List.map_cons, List.cons.injEq]
+    exact ⟨h x (by simp), ih (fun w hw => h w (by simp [hw]))⟩
+
+/-- **Round trip.** For every array of every representable element type, every shape (the shape
+    is carried verbatim, so `()`, `(0,)`, `(0,2)` need no special case) and every payload, decoding
+    what `from_array` wrote gives the array back — bit for bit, except that a *signalling* float32
+    NaN (also as a component of a complex64) has its quiet bit set when the platform's
+    float→double conversion does that (`canon`, see `canon_spec`). -/
+theorem roundtrip (q : Bool) (a : Arr) (name : String) (h : a.WF) :
+    ∃ t, fromArray q a name = some t ∧ toArray q t = some (canon q a) := by
+  obtain ⟨d, shape, words, strs⟩ := a
+  have hr := h.range
+  have hs := h.no_strs
+  have hw := h.no_words
+  simp only at hr hs hw
+  cases d <;>
+    simp only [fromArray, enumOf, onnxDType, fieldOf, toArray, canon, ne_eq, not_true_eq_false,
+      if_false, reduceCtorEq, not_false_eq_true, forall_const, List.map_map, exists_eq_left',
+      Option.some.injEq, Arr.mk.injEq, true_and, DType.bits] at hr hs hw ⊢
+  all_goals first
+    | (refine ⟨?_, hs.symm⟩; apply map_eq_self; intro w hw'; have := hr w hw';
+       try simp only [Function.comp, decInt32, encInt, DType.signed, DType.bits, if_true, Bool.false_eq_true, if_false]
+       first
+         | exact ofInt_toSigned_8 w this | exact ofInt_toSigned_16 w this
+         | exact ofInt_toSigned_32 w this | exact ofInt_toSigned_64 w this
+         | exact ofInt_nat_16 w this | exact ofInt_nat_8 w this | exact ofInt_nat_bool w this
+         | exact Nat.mod_eq_of_lt this)
+    | (refine ⟨?_, hs.symm⟩; apply List.map_congr_left; intro w _; exact quiet32_idem q w)
+    | exact hs.symm
+    | (subst hw; rw [mapM_decode_encode]; rfl)
+
+end C10
